@@ -9,6 +9,7 @@ Oracle (independent of evo and of the model): properness, positive scale / exact
 not larger than Horn's quaternion optimum nor than random perturbations in SO(3)xR^3xR_+,
 noise-free recovery, equivariance under similarity + permutation, refusal of the degenerate classes.
 """
+import json
 import math
 import zlib
 import numpy as np
@@ -95,6 +96,44 @@ def gen_cases(ctx):
     yield mk("degenerate", np.repeat(np.array([[0.1], [0.2], [0.3]]), 7, axis=1),
              np.array([[1., 2, 3, 4, 0, 1, 5], [0, 1, 0, 2, 7, 1, 1], [1, 1, 0, 0, 2, 3, 9]]), False,
              corpus="coincident non-dyadic x (float mean inexact): needs the absolute floor of the rank test", deg="coincident")
+    yield mk("sentinel", SENT_X, SENT_Y, False, corpus="L2 sentinel input (re-evaluated after every case)")
+    yield mk("sentinel", SENT_X, SENT_Y, True, corpus="L2 sentinel input (re-evaluated after every case)")
+    # ---- L2, systematic order: reflection case -> ordinary case -> reflection case -> planar case ... in one process
+    for j in range(6):
+        n = r.randint(4, 20)
+        x = np.array([[r.gauss(0, 1) * a for _ in range(n)] for a in (3.0, 2.0, 1.0)])
+        Rm = rand_rot(r)
+        y = Rm @ np.diag([1.0, 1.0, -1.0]) @ x + np.array([[r.gauss(0, 0.05) for _ in range(n)] for _ in range(3)])
+        yield mk("mirrored", rand_rot(r) @ x, y, j % 2 == 0, order="reflection-then-ordinary")
+        if j % 2 == 0:
+            y2 = 1.5 * (Rm @ x) + np.array([[r.gauss(0, 0.1) for _ in range(n)] for _ in range(3)])
+            yield mk("noisy", x, y2, j % 4 == 0, noise=0.05, order="ordinary-after-reflection")
+        else:
+            xp = np.array([[r.gauss(0, 1) for _ in range(n)], [r.gauss(0, 1) for _ in range(n)], [0.0] * n])
+            yield mk("planar", xp, Rm @ xp + np.array([[1.0], [2.0], [3.0]]), False, sub="exact", order="planar-after-reflection")
+    # ---- L3: array flavours of the same kind of data (values, hence expected results, unchanged)
+    for fl in FLAVOURS:
+        for ws in (False, True):
+            if fl in ("int", "float32"):
+                if fl == "float32" and ws:
+                    continue      # float32 variance is only accurate to 1e-7: outside the 2^-30 certificate; rigid mode is exact here
+                n = r.choice([4, 8])
+                x = np.array([[float(r.randint(-6, 6)) for _ in range(n)] for _ in range(3)])
+                G = r.choice(grid_rots())
+                y = (2.0 if ws else 1.0) * (G @ x) + np.array([[float(r.randint(-8, 8))] for _ in range(3)])
+                y[r.randrange(3), r.randrange(n)] += r.choice([1.0, -1.0])
+                if fl == "float32":   # keep the float32 means exact: coordinate sums divisible by n
+                    x[:, 0] -= x.sum(axis=1) % n
+                    y[:, 0] -= y.sum(axis=1) % n
+                yield mk("grid", x, y, ws, flavour=fl)
+            else:
+                n = r.randint(5, 40)
+                x = np.array([[r.gauss(0, 1) * 5 * a for _ in range(n)] for a in (1.0, 0.6, 0.3)]) + 20.0
+                R0 = rand_rot(r)
+                y = (1.7 if ws else 1.0) * (R0 @ x) + np.array([[r.gauss(0, 0.5) for _ in range(n)] for _ in range(3)])
+                if fl == "same-object":
+                    y = x
+                yield mk("noisy", x, y, ws, noise=0.1, flavour=fl, ws_as=r.choice(["bool", "int", "np.bool_"]))
     # ---- structured sizes: every run sees n in {1,2,3,4, 2^k-1, 2^k, 2^k+1 (k=2..11), 1000, 2000} on noisy data
     # (one dropped / doubled pair changes the optimum), both scale modes (large sizes: alternating in the quick tier)
     grid = sorted(set([1, 2, 3, 4, 1000, 2000] + [2 ** k + d for k in range(2, 12) for d in (-1, 0, 1)]))
@@ -258,8 +297,10 @@ def call_evo(x, y, ws, probe=False):
     try:
         try:
             r, t, c = geometry.umeyama_alignment(x, y, ws)
-            out = {"R": np.array(r, dtype=float).tolist(), "t": np.array(t, dtype=float).tolist(), "c": float(c),
-                   "c_is_float": isinstance(c, float) or isinstance(c, np.floating)}
+            out = {"R": np.array(r, dtype=float).reshape(3, 3).tolist(), "t": np.array(t, dtype=float).reshape(3).tolist(),
+                   "c": float(c), "c_is_float": isinstance(c, float) or isinstance(c, np.floating)}
+            if not (np.isfinite(np.array(out["R"])).all() and np.isfinite(np.array(out["t"])).all() and math.isfinite(out["c"])):
+                out = {"err": "NONFINITE", "msg": f"non-finite result R={out['R']} t={out['t']} c={out['c']}"[:200]}
         except geometry.GeometryException as e:
             out = {"err": "E_GEOMETRY", "msg": str(e)[:60]}
         except Exception as e:   # anything else is not "evo's geometry error"
@@ -272,18 +313,70 @@ def call_evo(x, y, ws, probe=False):
     return out
 
 
+FLAVOURS = ["T-view", "C", "strided", "readonly", "same-object", "shared-base", "int", "float32"]
+
+
 def arrays(case):
+    """the arrays handed to evo. Default: the transposed view of an n×3 array (what `positions_xyz.T` is for evo's own
+    callers: Fortran-ordered, not C-contiguous). Other flavours (L3): C-contiguous copy, strided view into a wider base,
+    read-only, one object in both slots, two views of one base array, int64 / float32 dtype (exact-grid data only)."""
+    fl = case.get("flavour", "T-view")
     x = np.array(case["x"], dtype=float).T.reshape(3, -1) if case["x"] else np.zeros((3, 0))
     y = np.array(case["y"], dtype=float).T.reshape(3, -1) if case["y"] else np.zeros((3, 0))
+    if fl == "C":
+        x, y = np.ascontiguousarray(x), np.ascontiguousarray(y)
+    elif fl == "strided":
+        bx, by = np.full((3, 2 * x.shape[1] + 1), 7.5), np.full((6, y.shape[1]), -3.25)
+        bx[:, 1::2] = x
+        by[::2, :] = y
+        x, y = bx[:, 1::2], by[::2, :]
+    elif fl == "readonly":
+        x, y = x.copy(), y.copy()
+        x.setflags(write=False)
+        y.setflags(write=False)
+    elif fl == "same-object":
+        y = x
+    elif fl == "shared-base":
+        base = np.vstack([x, y]) if x.shape == y.shape else None
+        if base is not None:
+            x, y = base[:3], base[3:]
+    elif fl == "int":
+        x, y = x.astype(np.int64), y.astype(np.int64)
+    elif fl == "float32":
+        x, y = x.astype(np.float32), y.astype(np.float32)
     return x, y
 
 
+# L2: a fixed ordinary input, evaluated once before anything else in this process and again after *every* case: a
+# call must not depend on what was computed before it (module-level caches, shared scratch arrays, mutated defaults).
+SENT_X = np.array([[0.0, 1.0, 0.0, 0.0, 1.0, 2.0], [0.0, 0.0, 2.0, 0.0, 1.0, 1.0], [0.0, 0.0, 0.0, 3.0, 1.0, 0.5]])
+SENT_Y = np.array([[1.0, 1.2, -3.1, 1.0, -0.9, -1.0], [2.0, 4.1, 2.0, 2.2, 4.0, 6.1], [3.0, 3.0, 3.1, 9.0, 5.1, 4.0]])
+_SENT_BASE = {}
+
+
+def sentinel():
+    with np.errstate(all="ignore"):
+        return {ws: call_evo(SENT_X.copy(), SENT_Y.copy(), ws) for ws in (False, True)}
+
+
 def run_impl(case):
+    if not _SENT_BASE:
+        _SENT_BASE.update(sentinel())
     x, y = arrays(case)
     bx, by = x.tobytes(), y.tobytes()
+    ws = case["ws"]
+    if case.get("ws_as") == "int":
+        ws = int(ws)
+    elif case.get("ws_as") == "np.bool_":
+        ws = np.bool_(ws)
     with np.errstate(all="ignore"):
-        out = call_evo(x, y, case["ws"], probe=True)
+        out = call_evo(x, y, ws, probe=True)
     out["inputs_unchanged"] = x.tobytes() == bx and y.tobytes() == by
+    after = sentinel()
+    diff = [ws_ for ws_ in (False, True) if after[ws_] != _SENT_BASE[ws_]]
+    if diff:
+        out["sentinel_changed"] = {"with_scale": diff, "before": {str(k): _SENT_BASE[k] for k in diff},
+                                   "after": {str(k): after[k] for k in diff}}
     return out
 
 
@@ -404,11 +497,21 @@ def judge(ctx, case, impl, outs):
     m_class = int(outs[0].split()[1]) if outs[0] is not None else int(outs[1].split()[-1])
     refused = "err" in impl
     ctx.count("dist", "kind:" + case["kind"])
+    ctx.count("dist", "flavour:" + case.get("flavour", "T-view"))
     ctx.count("dist", "with_scale" if ws else "rigid")
     ctx.count("dist", "n<=3" if n <= 3 else "n<=12" if n <= 12 else "n<=100" if n <= 100 else "n>100")
 
     if not impl["inputs_unchanged"]:
         ctx.fail(case, "inputs-unmodified", "umeyama_alignment modified an input array")
+    if "sentinel_changed" in impl:
+        sc = impl["sentinel_changed"]
+        ctx.fail(case, "call-independent-of-history",
+                 "after this call a fixed ordinary input no longer gives the result it gave at process start: "
+                 f"{json.dumps(sc)[:400]}")
+    if impl.get("err") == "NONFINITE":
+        ctx.fail(case, "finite-result", impl["msg"])
+        ctx.record(case, False)
+        return
     if impl.get("err") == "CRASH":
         ctx.fail(case, "no-unexpected-exception", "exception other than GeometryException: " + impl["msg"])
         ctx.record(case, False)
@@ -596,7 +699,7 @@ def judge(ctx, case, impl, outs):
             Re = RB @ R @ RA.T
             if float(np.abs(R2 - Re).max()) > 1e-8 * cond * (1 + float(np.abs(x).max()) / (ext_x + 1e-300)):
                 ctx.fail(case, "equivariance", "rotation of the transformed input is not the composed rotation")
-    nontrivial = case["kind"] in ("noisy", "mirrored", "planar", "independent", "offset", "scales", "grid", "sized")
+    nontrivial = case["kind"] in ("noisy", "mirrored", "planar", "independent", "offset", "scales", "grid", "sized", "sentinel")
     ctx.record(case, nontrivial)
 
 
